@@ -53,8 +53,10 @@ void run_e2e(Toks &tk, std::ostream &os, const std::string &id)
             script[i].push_back(tk.flt());
     }
 
+    int trace = tk.p < tk.t.size() ? (int)tk.integer() : 0;
+
     // observers
-    std::ostringstream starts_os;
+    std::ostringstream starts_os, extra_os;
     size_t cur_real = 0;
     auto &H = verif::hooks();
     H = verif::Hooks{};
@@ -86,6 +88,43 @@ void run_e2e(Toks &tk, std::ostream &os, const std::string &id)
         if (cur_real < script.size() && j < script[cur_real].size())
             L2 = script[cur_real][j];
     };
+
+    auto dump_state = [&](const char *tag, size_t i, size_t it, const tensor::Matrix<double> &su,
+                          const tensor::Matrix<double> *sv, const std::vector<double> &sw) {
+        extra_os << id << " " << tag << " " << i << " " << it << " u :";
+        auto d = su.dims();
+        for (size_t a = 0; a < std::get<0>(d); a++)
+            for (size_t b = 0; b < std::get<1>(d); b++)
+                extra_os << " " << hx(su(a, b));
+        extra_os << "\n";
+        if (sv)
+        {
+            extra_os << id << " " << tag << " " << i << " " << it << " v :";
+            auto dv = sv->dims();
+            for (size_t a = 0; a < std::get<0>(dv); a++)
+                for (size_t b = 0; b < std::get<1>(dv); b++)
+                    extra_os << " " << hx((*sv)(a, b));
+            extra_os << "\n";
+        }
+        extra_os << id << " " << tag << " " << i << " " << it << " w :";
+        for (double x : sw)
+            extra_os << " " << hx(x);
+        extra_os << "\n";
+    };
+    if (trace >= 1)
+    {
+        H.iteration_end = [&](size_t i, size_t it, const tensor::Matrix<double> &su, const tensor::Matrix<double> *sv,
+                              const std::vector<double> &sw, double L2, size_t coincide, int reason) {
+            extra_os << id << " @iter " << i << " " << it << " " << coincide << " " << reason << " " << hx(L2) << "\n";
+            if (trace >= 2)
+                dump_state("@state", i, it, su, sv, sw);
+            if (reason != 0)
+                dump_state("@final", i, it, su, sv, sw);
+        };
+        H.realization_end = [&](size_t i, double L2, bool adopted) {
+            extra_os << id << " @adopted " << i << " " << (adopted ? 1 : 0) << " " << hx(L2) << "\n";
+        };
+    }
 
     utils::Report rep;
     bool ok = true;
@@ -142,6 +181,7 @@ void run_e2e(Toks &tk, std::ostream &os, const std::string &id)
             os << " " << rep.vec_iter[i] << " " << rep.vec_term_reason[i] << " " << hx(rep.vec_L2[i]);
         os << "\n";
         os << starts_os.str();
+        os << extra_os.str();
     }
     (void)directed;
 }
